@@ -229,14 +229,17 @@ def raw_items(c):
 # ---- function container (module-level functions: picklable, printable) -------
 
 def add3(a, b=0, c=0):
+    _event("fn", 0, "add3")      # a call of a user function is an event too (it may raise on schedule)
     return a + b + c
 
 
 def lin(x, k=2, q=0):
+    _event("fn", 0, "lin")      # a call of a user function is an event too (it may raise on schedule)
     return k * x + q
 
 
 def mix(a, b, w=0.5):
+    _event("fn", 0, "mix")      # a call of a user function is an event too (it may raise on schedule)
     return a * w + b * (1 - w)
 
 
@@ -250,14 +253,17 @@ def vsum(c):
 
 
 def add3b(a, b=0, c=0):
+    _event("fn", 0, "add3b")      # a call of a user function is an event too (it may raise on schedule)
     return a + b + c + 1
 
 
 def linb(x, k=2, q=0):
+    _event("fn", 0, "linb")      # a call of a user function is an event too (it may raise on schedule)
     return k * x + q - 0.5
 
 
 def mixb(a, b, w=0.5):
+    _event("fn", 0, "mixb")      # a call of a user function is an event too (it may raise on schedule)
     return a * (1 - w) + b * w
 
 
